@@ -66,8 +66,10 @@ IDENTITY_CALLS = {"np.asarray", "np.asanyarray", "np.ascontiguousarray"}
 
 class FuncSpec:
     def __init__(self, file, name, lean, params, pyparams=None, bind=None, given=(), absent=(), locals=None,
-                 cell=None, skip=(), doc="", which=-1, ret=None, zero_of=None, raises=False, gen=False):
+                 cell=None, skip=(), doc="", which=-1, ret=None, zero_of=None, raises=False, gen=False, static=None, objects=()):
         self.raises = raises                # `raise` -> `none`, `return x` -> `some x`
+        self.static = dict(static or {})    # python parameter -> value known at translation time (enum member as written, str, bool)
+        self.objects = set(objects)         # parameters that are objects: only their attributes (see `bind`) are used
         self.gen = gen                      # generator of index tuples `(…, slice(a, b), …)`: the list of (position, a, b)
         self.file, self.name, self.lean = file, name, lean
         self.params = params                # [(lean name, type)] explicit parameters of the generated definition
@@ -318,7 +320,7 @@ class Tr:
             for r in e.args[0].elts:
                 rows.append("⟨" + ", ".join(self.coerce(*self.expr(x), K, x) for x in r.elts) + "⟩")
             return ("(⟨" + ", ".join(rows) + "⟩ : Arim.Geo.M3 K)", M)
-        if e.keywords:
+        if e.keywords and fsrc not in self.reg:
             self.err(e, "keyword arguments")
         if fsrc in self.s.bind:
             fs, ft = self.s.bind[fsrc]
@@ -366,11 +368,21 @@ class Tr:
                 return (a, ta)
             return (f"(o.trunc {self.coerce(a, ta, K, e)})", I)
         if fsrc in self.reg:
-            sp = self.reg[fsrc]
-            pnames = [a.arg for a in sp._fn.args.args]
-            if len(e.args) > len(pnames):
+            variants = self.reg[fsrc] if isinstance(self.reg[fsrc], list) else [self.reg[fsrc]]
+            pnames0 = [a.arg for a in variants[0]._fn0.args.args]
+            if len(e.args) > len(pnames0):
                 self.err(e, "too many arguments")
-            amap = dict(zip(pnames, e.args))
+            amap = dict(zip(pnames0, e.args))
+            for kw in e.keywords:
+                if kw.arg is None:
+                    self.err(e, "unexpanded ** argument")
+                amap[kw.arg] = kw.value
+            supplied = {k for k, v in amap.items() if not (isinstance(v, ast.Constant) and v.value is None)}
+            # the translation of the callee for this pattern of optional arguments (given / left to their default None)
+            fits = [v for v in variants if v.given <= supplied and not (v.absent & supplied) and not v.static]
+            if len(fits) != 1:
+                self.err(e, f"no single translated variant of {fsrc} for the arguments supplied ({sorted(supplied)})")
+            sp = fits[0]
             out = [sp.lean, "o"] + (["d"] if sp._uses_d else [])
             for ln, lt in sp.params:
                 py = sp._param_py.get(ln, ln)
@@ -815,6 +827,136 @@ class Tr:
         return txt
 
 
+class _Specialise(ast.NodeTransformer):
+    """partial evaluation of a function on its *static* arguments (enum members, unit strings, flags): conditions on them are
+    decided and the dead branches dropped; local aliases of object parameters are resolved; `dict(...)` literals passed as
+    `**name` are expanded; `obj.velocity(mode)` with a static mode becomes the velocity attribute it selects"""
+
+    def __init__(self, spec):
+        self.sp = spec
+        self.alias = {}     # local name -> object parameter
+        self.dicts = {}     # local name -> [(key, value expr)]
+        self.consts = {}    # local name -> True / False / None assigned on the path taken
+        self.funcs = {}     # local name -> name of the module-level function it was bound to
+
+    def sym(self, e):
+        """the static 'symbol' an expression denotes, or None"""
+        if isinstance(e, ast.Name) and e.id in self.sp.static:
+            return self.sp.static[e.id]
+        if isinstance(e, ast.Constant) and isinstance(e.value, (str, bool)):
+            return e.value
+        if isinstance(e, ast.Attribute):
+            return ast.unparse(e)
+        if isinstance(e, ast.Call) and isinstance(e.func, ast.Attribute) and e.func.attr == "lower" and not e.args:
+            v = self.sym(e.func.value)
+            return v.lower() if isinstance(v, str) else None
+        return None
+
+    def decide(self, t):
+        if isinstance(t, ast.Name) and t.id in self.sp.static and isinstance(self.sp.static[t.id], bool):
+            return self.sp.static[t.id]
+        if isinstance(t, ast.Name) and isinstance(self.consts.get(t.id), bool):
+            return self.consts[t.id]
+        if isinstance(t, ast.Constant) and isinstance(t.value, bool):
+            return t.value
+        if isinstance(t, ast.UnaryOp) and isinstance(t.op, ast.Not):
+            v = self.decide(t.operand)
+            return None if v is None else not v
+        if isinstance(t, ast.BoolOp):
+            vs = [self.decide(v) for v in t.values]
+            if isinstance(t.op, ast.And):
+                return False if any(v is False for v in vs) else (True if all(v is True for v in vs) else None)
+            return True if any(v is True for v in vs) else (False if all(v is False for v in vs) else None)
+        if isinstance(t, ast.Compare) and len(t.ops) == 1 and isinstance(t.ops[0], (ast.Is, ast.IsNot, ast.Eq, ast.NotEq)):
+            involves_static = any(isinstance(x, ast.Name) and x.id in self.sp.static for x in ast.walk(t))
+            a, b = self.sym(t.left), self.sym(t.comparators[0])
+            if involves_static and a is not None and b is not None:
+                eq = (a == b)
+                return eq if isinstance(t.ops[0], (ast.Is, ast.Eq)) else not eq
+        return None
+
+    def stmts(self, body):
+        out = []
+        for st in body:
+            if isinstance(st, ast.If):
+                v = self.decide(st.test)
+                if v is not None:
+                    out += self.stmts(st.body if v else st.orelse)
+                    if out and isinstance(out[-1], (ast.Return, ast.Raise)):
+                        break
+                    continue
+                st = ast.If(test=self.visit(st.test), body=self.stmts(st.body), orelse=self.stmts(st.orelse))
+                out.append(ast.fix_missing_locations(st))
+                continue
+            if isinstance(st, ast.With):
+                out += self.stmts(st.body)
+                if out and isinstance(out[-1], (ast.Return, ast.Raise)):
+                    break
+                continue
+            if isinstance(st, ast.Assign) and len(st.targets) == 1 and isinstance(st.targets[0], ast.Name):
+                n, v = st.targets[0].id, st.value
+                if isinstance(v, ast.Constant) and (v.value is None or isinstance(v.value, bool)):
+                    self.consts[n] = v.value
+                    continue
+                if isinstance(v, ast.Name) and v.id in self.sp.known_functions:
+                    self.funcs[n] = v.id
+                    continue
+                self.consts.pop(n, None)
+                if isinstance(v, ast.Name) and (v.id in self.sp.objects or v.id in self.alias):
+                    self.alias[n] = self.alias.get(v.id, v.id)
+                    continue
+                if isinstance(v, ast.Call) and ast.unparse(v.func) == "dict" and not v.args and all(k.arg for k in v.keywords):
+                    self.dicts[n] = [(k.arg, self.visit(k.value)) for k in v.keywords]
+                    continue
+            out.append(self.visit(st))
+            if isinstance(st, (ast.Return, ast.Raise)):
+                break
+        return out
+
+    def visit_Attribute(self, node):
+        self.generic_visit(node)
+        if isinstance(node.value, ast.Name) and node.value.id in self.alias:
+            node.value = ast.Name(id=self.alias[node.value.id], ctx=ast.Load())
+        return node
+
+    def visit_Call(self, node):
+        self.generic_visit(node)
+        # obj.velocity(mode) with a static mode
+        if isinstance(node.func, ast.Attribute) and node.func.attr == "velocity" and len(node.args) == 1:
+            m = self.sym(node.args[0])
+            which = {"c.Mode.L": "longitudinal_vel", "c.Mode.T": "transverse_vel", "c.Mode.longitudinal": "longitudinal_vel", "c.Mode.transverse": "transverse_vel"}.get(m)
+            if which:
+                return ast.copy_location(ast.Attribute(value=node.func.value, attr=which, ctx=ast.Load()), node)
+        if isinstance(node.func, ast.Name) and node.func.id in self.funcs:
+            node.func = ast.copy_location(ast.Name(id=self.funcs[node.func.id], ctx=ast.Load()), node.func)
+        kws = []
+        for k in node.keywords:
+            if k.arg is None and isinstance(k.value, ast.Name) and k.value.id in self.dicts:
+                kws += [ast.keyword(arg=a, value=v) for a, v in self.dicts[k.value.id]]
+            else:
+                kws.append(k)
+        node.keywords = kws
+        return node
+
+    def visit_Name(self, node):
+        if isinstance(node.ctx, ast.Load) and node.id in self.consts:
+            return ast.copy_location(ast.Constant(value=self.consts[node.id]), node)
+        if isinstance(node.ctx, ast.Load) and node.id in self.sp.static and isinstance(self.sp.static[node.id], (bool, str)) \
+                and not self.sp.static[node.id].__class__ is str:
+            return ast.copy_location(ast.Constant(value=self.sp.static[node.id]), node)
+        return node
+
+
+def specialise(fn, spec):
+    import copy as _copy
+    fn2 = _copy.deepcopy(fn)
+    sp_ = _Specialise(spec)
+    fn2.body = sp_.stmts(fn2.body)
+    fn2.args.args = [a for a in fn2.args.args if a.arg not in spec.static]
+    fn2.args.defaults = []
+    return ast.fix_missing_locations(fn2)
+
+
 def ret_type(t):
     if isinstance(t, tuple) and t[0] == "T":
         return " × ".join(lean_type(x) for x in t[1])
@@ -842,6 +984,10 @@ def translate(specs, src_root: Path, header: str):
         fn = find_function(trees[sp.file], sp.name, sp.which)
         if fn is None:
             raise TranslateError(f"{sp.file}: function {sp.name} not found")
+        sp._fn0 = fn
+        sp.known_functions = {x.name for x in specs}
+        if sp.static:
+            fn = specialise(fn, sp)
         sp._fn = fn
         # a decorator changes what the name denotes (a memo hands out shared storage, a wrapper may do anything): only
         # the JIT decorators, which keep the meaning of the body, are read through
@@ -854,14 +1000,14 @@ def translate(specs, src_root: Path, header: str):
         for a in fn.args.args:
             if a.arg not in sp.pyparams and a.arg not in dict(sp.params) and a.arg not in sp.given | sp.absent \
                     and a.arg not in sp.bind and not any(k.startswith(a.arg + ".") for k in sp.bind) \
-                    and not (sp.cell and a.arg in sp.cell["arrays"]):
+                    and not (sp.cell and a.arg in sp.cell["arrays"]) and a.arg not in sp.objects:
                 raise TranslateError(f"{sp.file}:{sp.name}: parameter {a.arg} has no declared type")
         sp._param_py = {}
         tr = Tr(sp, registry, fn)
         body = tr.run()
         # instance requirements of the translated functions this one calls
         import re as _re
-        for sp2 in registry.values():
+        for sp2 in [v for vs in registry.values() for v in vs]:
             if _re.search(r"(?<![A-Za-z0-9_.])" + _re.escape(sp2.lean) + r"(?![A-Za-z0-9_])", body):
                 tr.uses_order = tr.uses_order or sp2._uses_order
                 tr.uses_eq = tr.uses_eq or sp2._uses_eq
@@ -881,7 +1027,7 @@ def translate(specs, src_root: Path, header: str):
         sp._order = order
         out.append(f"def {sp.lean} {tyvars} [Add K] [Sub K] [Mul K] [Div K] [Neg K]{order}\n"
                    f"    {binders} {params} : {rt} :=\n{body}\n")
-        registry[sp.name] = sp
+        registry.setdefault(sp.name, []).append(sp)
         notes += [f"{sp.name}: {n}" for n in tr.notes]
         if sp.cell:
             notes.append(f"{sp.name}: per-cell translation; cell loops " + ", ".join(f"{v} in {r}" for v, r in tr._cell_ranges))
